@@ -1,3 +1,3 @@
-(* _client.py :: KeyCache._get_key :: ('if', 0) :  seed_key and (seed_key.l1 > l1 or (seed_key.l1 == l1 and seed_key.l2 >= l2)) *)
+(* _client.py :: KeyCache._get_key :: ('if_mentions', 'seed_key', 0) :  seed_key and (seed_key.l1 > l1 or (seed_key.l1 == l1 and seed_key.l2 >= l2)) *)
 Definition k_cache_covers (seed_key : bool) (seed_key_l1 : Z) (l1 : Z) (seed_key_l2 : Z) (l2 : Z) : bool :=
   (seed_key && ((seed_key_l1 >? l1) || ((seed_key_l1 =? l1) && (seed_key_l2 >=? l2)))).
